@@ -151,6 +151,15 @@ def _run_group_in(name, outdir, rlimit=None, canary_calls=None, timeout=600):
             except ValueError:
                 pass
     errors = [d for d in diags if d.get('level') == 'error' and not d.get('message', '').startswith('aborting due to')]
+    if 'internal compiler error' in p.stderr or 'panicked at' in p.stderr or 'stack backtrace' in p.stderr:
+        # the verifier itself crashed on this input: a construct outside its reach (never seen on the unchanged tree) -- same
+        # standing as an unsupported construct: the group is not verified, the other back ends decide
+        res['reason'] = 'not a verification verdict: the verifier crashed on this input (internal compiler error)'
+        res['soft'] = True
+        res['wall_s'] = time.time() - t0
+        with open(os.path.join(outdir, name + '.verus.log'), 'w') as f:
+            f.write(p.stderr[-20000:])
+        return res
     with open(os.path.join(outdir, name + '.verus.log'), 'w') as f:
         f.write(p.stdout[-20000:] if summary is None else json.dumps(summary.get('verification-results')))
         f.write('\n')
